@@ -167,11 +167,11 @@ def check(ctx):
                           key=f"PAIR|{fi.qualname}|orphan-line|{norm(c.args[0])[:40] if c.args else ''}",
                           where=common.loc(fi, st))
 
-    _staging_tables(ctx)
-    _hand_down(ctx)
-    _flawed(ctx)
-    _warnings(ctx)
-    _tract_sharing(ctx)
+    ctx.attempt(_staging_tables)
+    ctx.attempt(_hand_down)
+    ctx.attempt(_flawed)
+    ctx.attempt(_warnings)
+    ctx.attempt(_tract_sharing)
 
 
 def _staging_tables(ctx):
